@@ -12,6 +12,7 @@ import (
 
 	"github.com/btcsuite/btcd/btcec/v2"
 	"github.com/elementsproject/peerswap/swap"
+	"github.com/elementsproject/peerswap/txwatcher"
 
 	"verifharness/ref"
 	"verifharness/sim"
@@ -348,10 +349,125 @@ func TestC07(t *testing.T) {
 	reps := r.N(1, 4) // thorough: every adversarial history in four worlds (amounts, keys)
 	parallelDo(len(adv)*reps, 12, func(i int) { runC07Adv(r, r.Seed*2903+int64(i)+1, adv[i%len(adv)]) })
 	r.Extra["adversarial_histories"] = len(adv) * reps
+	// (iii) the real rpc watchers as back-end: the taker stays silent; while the maker waits, the chain backend
+	// behaves as real ones do (does not know the output for a few calls, a reorganisation unconfirms the opening
+	// transaction and it is mined again); then the CSV matures and the refund must get on chain
+	txwatcher.VerifSetPolling(time.Millisecond, time.Millisecond)
+	var rcases []c07Real
+	for _, ch := range []string{"btc", "lbtc"} {
+		for _, ty := range []string{"in", "out"} {
+			for _, pat := range []string{"plain", "unknown-output-for-a-while", "reorg-unconfirms-then-remined", "unknown-output-then-reorg"} {
+				for k := 0; k < r.N(1, 6); k++ {
+					rcases = append(rcases, c07Real{ch, ty, pat})
+				}
+			}
+		}
+	}
+	parallelDo(len(rcases), 6, func(i int) { runC07Real(r, r.Seed*8887+int64(i)+1, rcases[i]) })
+	r.Extra["real_watcher_histories"] = len(rcases)
 	ho, _ := r.Extra["histories_with_opening_tx"].(int)
 	r.Sample(map[string]any{"case": "lbtc out/receiver, taker sends coop_close with a third-party key after a cancel, swap output at index 2", "expectation": "maker ends in ClaimedCsv with its CSV refund accepted by the chain"})
 	r.Require(ho >= 100, fmt.Sprintf("only %d histories had an opening transaction", ho))
 	_ = bytes.Equal
+}
+
+type c07Real struct{ chain, typ, pattern string }
+
+// runC07Real: a real maker with the real rpc watchers, a silent taker and a chain backend with hiccups.
+func runC07Real(r *Run, seed int64, c c07Real) {
+	rng := mrand.New(mrand.NewSource(seed))
+	w := sim.NewWorld(seed)
+	defer w.Close()
+	m := w.AddNode("alice", sim.DefaultNodeConfig())
+	tk := w.AddPeer("mallory")
+	w.LN.OpenChannel("100x1x0", m.ID, tk.ID, 5_000_000_000, 5_000_000_000)
+	rn := &realNode{n: m}
+	defer rn.stop()
+	if err := rn.start(false); err != nil {
+		r.Inconclusive("start: " + err.Error())
+		return
+	}
+	chain, fac := w.BTC, rn.btcRPC
+	if c.chain == "lbtc" {
+		chain, fac = w.LBTC, rn.lbtcRPC
+	}
+	id, _, err := makerToAwaitPayment(w, rn, tk, c.chain, c.typ, rng)
+	if err != nil {
+		r.Inconclusive("setup: " + err.Error())
+		return
+	}
+	settle := func() {
+		w.Run()
+		time.Sleep(4 * time.Millisecond) // lets the polling watcher run a pass
+		w.Run()
+	}
+	chain.Mine(1)
+	settle()
+	unknown := func() {
+		fac.UnknownOutputs.Store(int32(3 + rng.Intn(6)))
+		for i := 0; i < 3; i++ {
+			chain.Mine(1)
+			settle()
+		}
+		fac.UnknownOutputs.Store(0)
+	}
+	reorg := func() {
+		// the block with the opening transaction is replaced by an empty one, the transaction is mined again later
+		chain.Reorg(1+rng.Intn(2), 0, false)
+		settle()
+		chain.Mine(2)
+		settle()
+	}
+	switch c.pattern {
+	case "unknown-output-for-a-while":
+		unknown()
+	case "reorg-unconfirms-then-remined":
+		reorg()
+	case "unknown-output-then-reorg":
+		unknown()
+		reorg()
+	}
+	chain.Mine(int(ref.CSV(c.chain, 7)) + 3)
+	settle()
+	state := func() string {
+		if rec := m.StoredSwap(id.String()); rec != nil {
+			return string(rec.Current)
+		}
+		return ""
+	}
+	done := func() bool { return state() == string(swap.State_ClaimedCsv) }
+	ok := waitUntil(2*time.Second, func() bool { w.Run(); return done() })
+	if !ok {
+		// no verdict from elapsed time: wait while the world is doing something (new events, calls in flight)
+		lastN, quietSince, t0 := len(w.Events()), time.Now(), time.Now()
+		for !ok && time.Since(t0) < 90*time.Second {
+			time.Sleep(50 * time.Millisecond)
+			w.Run()
+			ok = done()
+			if n := len(w.Events()); n != lastN || w.Blocked() > 0 {
+				lastN, quietSince = n, time.Now()
+			} else if time.Since(quietSince) > 5*time.Second {
+				break
+			}
+		}
+		if !ok && time.Since(t0) >= 90*time.Second {
+			r.Inconclusive(fmt.Sprintf("real-watcher history still busy after 90 s; case %+v", c))
+			return
+		}
+	}
+	r.Eval()
+	r.Count("real_watcher_refunds", map[bool]int{true: 1}[ok])
+	r.Seen(fmt.Sprintf("real-rpc-watcher/%s/%s/%s/final=%s", c.chain, c.typ, c.pattern, state()))
+	if !ok {
+		spent := false
+		for _, tx := range chain.TxsBy("alice", "csv") {
+			if tx != nil {
+				spent = true
+			}
+		}
+		r.Violate("refund-after-csv", fmt.Sprintf("C07|refund-never-broadcast|real-rpc-watcher|%s|%s|%s", c.chain, map[string]string{"in": "in/sender", "out": "out/receiver"}[c.typ], c.pattern),
+			fmt.Sprintf("the taker stayed silent, the CSV matured %d blocks ago, the world is quiet, and the maker is still in %s (refund on chain: %v); case %+v seed %d", 3, state(), spent, c, seed), traceOf(w))
+	}
 }
 
 // thorough-tier variations of lcSweepRoles
